@@ -65,7 +65,7 @@ Calls0 == (IF "nobase" \in Extra THEN <<>>
 MCCalls == [i \in 1..Len(Calls0) |-> [id |-> i, op |-> Calls0[i].op, ty |-> Calls0[i].ty, arg |-> Calls0[i].arg]]
 CallSet == {MCCalls[i] : i \in 1..Len(MCCalls)}
 
-ASSUME PrintT("SCEN " \o ToJson([classes |-> WithBuild(MCcl), qualnames |-> [n \in DOMAIN MCcl |-> QualName(MCcl, n)], calls |-> MCCalls]))
+ASSUME PrintT("SCEN " \o ToJson([classes |-> WithBuild(MCcl), calls |-> MCCalls]))
 
 Init == RegInit /\ results = <<>>
 EmitWhenComplete == Len(hist') = MaxLen => PrintT("HIST " \o ToJson([h |-> hist', exp |-> results']))
